@@ -17,7 +17,9 @@ class InjectedFault(OSError):
 class Session(object):
     def __init__(self, root, inject_at=None):
         self.root = os.path.realpath(root)
-        self.inject_at = inject_at
+        # None, one operation number, or several (a later fault only fires if the call survived the earlier ones)
+        self.inject_at = set() if inject_at is None else ({inject_at} if isinstance(inject_at, int) else set(inject_at))
+        self.fired_all = []
         self.count = 0
         self.trace = []
         self.proxies = []
@@ -55,8 +57,9 @@ class Session(object):
     def op(self, proxy, name):
         self.count += 1
         self.trace.append((proxy.ident, name))
-        if self.inject_at is not None and self.count == self.inject_at:
+        if self.count in self.inject_at:
             self.fired = (proxy.ident, name, self.count)
+            self.fired_all.append(self.count)
             raise InjectedFault("injected fault at operation %d (%s on file #%d)" % (self.count, name, proxy.ident))
 
     def open_handles(self):
